@@ -5,6 +5,9 @@ use tvmon::ctx::{Ctx, catch, is_marked_panic, panic_key};
 use tvmon::rng::Rng;
 use tvmon::wl::*;
 
+/// cap on items taken from a library iterator: a runaway iterator becomes a length violation, not an OOM
+const CAP: usize = 200_000;
+
 type O = Option<f64>;
 
 fn same(a: &[O], b: &[O]) -> Option<usize> {
@@ -152,32 +155,32 @@ fn run_case(ctx: &mut Ctx, rng: &mut Rng, x: &Series, all_lags: bool) {
             // shift on the plain iterator: fill is a plain value (NaN plays the null)
             let fv = fill.unwrap_or(f64::NAN);
             let want = o_shift(x, nn, fill);
-            judge(ctx, "shift", "vec<f64>", &|| format!("titer().shift({n}, {fv}) x={xs}"), catch(|| dec(xf.titer().shift(n, fv).collect())), &want);
-            judge(ctx, "shift", "vec<opt f64>", &|| format!("titer().shift({n}, {fill:?}) x={xs}"), catch(|| xo.titer().shift(n, fill).collect()), &want);
-            judge(ctx, "vshift", "vec<f64>", &|| format!("titer().vshift({n}, {fill:?}) x={xs}"), catch(|| dec(xf.titer().vshift(n, fill).collect())), &want);
+            judge(ctx, "shift", "vec<f64>", &|| format!("titer().shift({n}, {fv}) x={xs}"), catch(|| dec(xf.titer().shift(n, fv).take(CAP).collect())), &want);
+            judge(ctx, "shift", "vec<opt f64>", &|| format!("titer().shift({n}, {fill:?}) x={xs}"), catch(|| xo.titer().shift(n, fill).take(CAP).collect()), &want);
+            judge(ctx, "vshift", "vec<f64>", &|| format!("titer().vshift({n}, {fill:?}) x={xs}"), catch(|| dec(xf.titer().vshift(n, fill).take(CAP).collect())), &want);
             judge(ctx, "vshift", "vec<opt f64>", &|| format!("titer().vshift({n}, {:?}) x={xs}", fill.map(Some)), catch(|| xo.titer().vshift(n, fill.map(Some)).collect()), &want);
             let wd = o_diff(x, nn, fill);
-            judge(ctx, "vdiff", "vec<f64>", &|| format!("vdiff({n}, {fill:?}) x={xs}"), catch(|| dec(xf.vdiff(n, fill).collect())), &wd);
+            judge(ctx, "vdiff", "vec<f64>", &|| format!("vdiff({n}, {fill:?}) x={xs}"), catch(|| dec(xf.vdiff(n, fill).take(CAP).collect())), &wd);
         }
         let wp = o_pct(x, nn);
-        judge(ctx, "vpct_change", "vec<f64>", &|| format!("vpct_change({n}) x={xs}"), catch(|| dec(xf.vpct_change(n).collect())), &wp);
-        judge(ctx, "vpct_change", "vec<opt f64>", &|| format!("vpct_change({n}) x={xs}"), catch(|| dec(xo.vpct_change(n).collect())), &wp);
+        judge(ctx, "vpct_change", "vec<f64>", &|| format!("vpct_change({n}) x={xs}"), catch(|| dec(xf.vpct_change(n).take(CAP).collect())), &wp);
+        judge(ctx, "vpct_change", "vec<opt f64>", &|| format!("vpct_change({n}) x={xs}"), catch(|| dec(xo.vpct_change(n).take(CAP).collect())), &wp);
         // view-based operations on other backends
         let dq = deque_of(&xf, rng.below(len + 1));
-        judge(ctx, "vdiff", "deque<f64>", &|| format!("vdiff({n}, None) [deque] x={xs}"), catch(|| dec(dq.vdiff(n, None).collect())), &o_diff(x, nn, None));
-        judge(ctx, "vpct_change", "deque<f64>", &|| format!("vpct_change({n}) [deque] x={xs}"), catch(|| dec(dq.vpct_change(n).collect())), &wp);
+        judge(ctx, "vdiff", "deque<f64>", &|| format!("vdiff({n}, None) [deque] x={xs}"), catch(|| dec(dq.vdiff(n, None).take(CAP).collect())), &o_diff(x, nn, None));
+        judge(ctx, "vpct_change", "deque<f64>", &|| format!("vpct_change({n}) [deque] x={xs}"), catch(|| dec(dq.vpct_change(n).take(CAP).collect())), &wp);
         let step = *rng.pick(&[2isize, -1, 3]);
         let base = nd_base(&xf, step, 77.0);
         let v = nd_view(&base, step);
         judge(ctx, "vdiff", "arrayview1<f64>", &|| format!("vdiff({n}, Some(1.5)) [arrayview1 step {step}] x={xs}"), catch(|| dec(v.vdiff(n, Some(1.5)).collect())), &o_diff(x, nn, Some(1.5)));
-        judge(ctx, "vpct_change", "arrayview1<f64>", &|| format!("vpct_change({n}) [arrayview1 step {step}] x={xs}"), catch(|| dec(v.vpct_change(n).collect())), &wp);
-        judge(ctx, "vshift", "deque<f64>", &|| format!("titer().vshift({n}, None) [deque] x={xs}"), catch(|| dec(dq.titer().vshift(n, None).collect())), &o_shift(x, nn, None));
+        judge(ctx, "vpct_change", "arrayview1<f64>", &|| format!("vpct_change({n}) [arrayview1 step {step}] x={xs}"), catch(|| dec(v.vpct_change(n).take(CAP).collect())), &wp);
+        judge(ctx, "vshift", "deque<f64>", &|| format!("titer().vshift({n}, None) [deque] x={xs}"), catch(|| dec(dq.titer().vshift(n, None).take(CAP).collect())), &o_shift(x, nn, None));
         // integer elements (no null): fill must be given
         if int_valued(&[x]) && !has_nulls(x) {
             let xi = enc_i32(x);
             let wi: Vec<O> = o_diff(x, nn, Some(7.0));
             judge(ctx, "vdiff", "vec<i32>", &|| format!("vdiff({n}, Some(7)) [i32] x={xs}"), catch(|| xi.vdiff(n, Some(7)).map(|v| Some(v as f64)).collect()), &wi);
-            judge(ctx, "shift", "vec<i32>", &|| format!("titer().shift({n}, 7) [i32] x={xs}"), catch(|| xi.titer().shift(n, 7).map(|v| Some(v as f64)).collect()), &o_shift(x, nn, Some(7.0)));
+            judge(ctx, "shift", "vec<i32>", &|| format!("titer().shift({n}, 7) [i32] x={xs}"), catch(|| xi.titer().shift(n, 7).take(CAP).map(|v| Some(v as f64)).collect()), &o_shift(x, nn, Some(7.0)));
         }
     }
     // fills
